@@ -9,7 +9,7 @@ META = {
  'C01': ('contract on Grammar.parse (icontract) vs. the input text', 'Every generated execution of the real Grammar.parse is judged by a post-condition: root, every node and the leaf tiling reproduce the input exactly. Exploration over ~10^5 (quick) / 10^6 (thorough) hostile inputs, whole files and bytes inputs on all nine grammars; nothing is claimed for inputs not generated.', 'oracle is equality with the input text; bytes decoding trusted to C15'),
  'C02': ('exception observer + shape contract on Grammar.parse; sys.monitoring step budget; CPU-time budget on a killable child process', 'Totality is observed on every generated execution (no exception, well-formed module), also after abandoned prior calls; termination is judged by a logical step budget on LINE events and by a CPU-time budget per input measured on a killable child (sees spins inside C code), never by wall-clock. Exploration: hostile mix, whole files, nesting ladder to depth 95.', 'nesting bounded by construction; estimator only excuses RecursionError above 100 levels'),
  'C03': ('contract on Grammar.parse vs. independent position walker', 'Each leaf/node position of each generated tree is compared with a position computed from the text alone. Exploration biased to multi-line tokens, \\r, non-Python separators, BOM, zero-width error leaves.', 'walker counts only \\n, \\r\\n, \\r; BOM zero width at offset 0'),
- 'C04': ('contract on DiffParser.update + fresh-parse reference model after every step (tree signature, parents, code, used names, helper-derived facts)', 'Every step of every generated edit history is compared with a fresh parse (signature, parents, code, used names, facts derived by the helpers and primed on the old tree); DEBUG_DIFF_PARSER asserts switched on as a second alarm. Exploration over histories of 1-8 steps on corpus slices, structured template programs and garbage, in LF / CRLF / bare-CR form, with edits of the file's tail, long tokens, and 15 % of the histories in a crowded in-memory cache (650 other modules, recent or 20 minutes old).', 'fresh parse is the reference model'),
+ 'C04': ('contract on DiffParser.update + fresh-parse reference model after every step (tree signature, parents, code, used names, helper-derived facts)', 'Every step of every generated edit history is compared with a fresh parse (signature, parents, code, used names, facts derived by the helpers and primed on the old tree); DEBUG_DIFF_PARSER asserts switched on as a second alarm. Exploration over histories of 1-8 steps on corpus slices, structured template programs and garbage, in LF / CRLF / bare-CR form, with edits of the tail of the file, long tokens, and 15 % of the histories in a crowded in-memory cache (650 other modules, recent or 20 minutes old).', 'fresh parse is the reference model'),
  'C05': ('conformance walk of every node against an independent EBNF/NFA model', 'Every non-error node of every generated tree is simulated against the NFA of its rule built from the grammar text by an independent reader; error nodes only where stmt/suite is expected. Exploration.', 'six documented tree conventions (DESIGN C05)'),
  'C06': ('bounded-exhaustive + random grammar derivations through the real parser (token and text mode, strict and recovering) vs. the generating derivation; plan-coverage counter', '(a) every rule reachable from file_input/eval_input, in a cheapest context, with every form of its right-hand side and one level of child forms (bounded-exhaustive, capped per rule); (b) random derivations with first-token steering. Each is parsed in token mode and text mode and compared with the derivation under the collapsing conventions; the run reports the fraction of transition plans taken and is inconclusive below a floor.', 'expected-tree conventions written from the property text'),
  'C07': ('both parser modes on one input, compared', 'Strict and recovering parses of each generated input are compared (raises iff error marks; same tree; same first error token/position).', 'zero-width indentation tokens compared by position only'),
